@@ -232,11 +232,15 @@ def run(rep, tier, seed, replay):
         return
 
     # 1. design check: the whole product on the transcription (+ publish sequences)
-    res = core.tlc_check('MC_Envelope.tla', T['mc'], timeout=2400)   # -coverage 1 was run by hand on MC_Envelope.cfg: no zero counts (design_notes/C14.md)
-    rep.add_design(T['mc'], res)
-    if res['violated']:
-        raise core.Inconclusive('the transcription itself violates %s - specification and code disagree, '
-                                'see design_notes/C14.md' % res['violated'])
+    # thorough: MC_Envelope_thorough.cfg is the table alone (all 256 HeaderLen values); the server part (publish
+    # sequences, internal subjects) is explored with MC_Envelope.cfg in both tiers.
+    # -coverage 1 was run by hand on MC_Envelope.cfg: no zero counts (design_notes/C14.md)
+    for mc in sorted({T['mc'], 'MC_Envelope.cfg'}):
+        res = core.tlc_check('MC_Envelope.tla', mc, timeout=2400)
+        rep.add_design(mc, res)
+        if res['violated']:
+            raise core.Inconclusive('the transcription itself violates %s - specification and code disagree, '
+                                    'see design_notes/C14.md' % res['violated'])
     lens, hls = cfg_set(T['trace'], 'Lens'), cfg_set(T['trace'], 'HLs')
     if (lens, hls) != (cfg_set(T['mc'], 'Lens'), cfg_set(T['mc'], 'HLs')):
         raise core.Inconclusive('design-check and trace configurations enumerate different products')
